@@ -35,7 +35,8 @@ CONSTANTS Tables,      \* set of descriptors (cfg records) to start from
           Edits,       \* BOOLEAN: read/test handlers may rewrite the response buffer
           Prefix,      \* input bytes delivered first (fixed), before the free choice starts
           MaxHavoc,    \* budget of HavocScratch steps (C20)
-          KeepRec      \* BOOLEAN: keep the last record in mon.last (simulation export only; FALSE for model checking)
+          KeepRec,     \* BOOLEAN: keep the last record in mon.last (simulation export only; FALSE for model checking)
+          NestedTrigs  \* set of <<c, t>>: events a handler may trigger from inside its invocation (cat_trigger_unsolicited_event called in a handler)
 
 VARIABLES S, mem, cfg, mon, nbytes, nlines, ntrig, nhx, nfail, ntog, lastRet, nhav
 
@@ -50,6 +51,8 @@ Init == /\ cfg \in Tables
 
 \* ---- candidate answers for the external call the model is about to make
 EditsOf(data) == IF Edits THEN {data, <<120>>} ELSE {data}
+\* what the handler does inside its invocation: nothing, or one trigger (either outcome is offered; the inconsistent one is discarded by ApplyIn)
+InsOf == {<<>>} \cup {<<[k |-> "api", f |-> "trigger", a |-> <<x[1], x[2]>>, ev |-> <<>>, ret |-> r]>> : x \in NestedTrigs, r \in {S_OK, S_FULL}}
 Candidates(mis) ==
   CASE mis.what = "rd" -> {[k |-> "rd", b |-> x, off |-> mis.exp] : x \in (IF nbytes < Len(Prefix) THEN {Prefix[nbytes + 1]}
                                                                       ELSE IF nbytes < MaxBytes THEN {b \in Bytes : b # LF \/ nlines < MaxLines} ELSE {})
@@ -58,13 +61,13 @@ Candidates(mis) ==
     [] mis.what = "cmd" ->
          IF mis.exp.kind = "write" THEN
             {[k |-> "cmd", kind |-> "write", c |-> mis.exp.c, fsm |-> mis.exp.fsm, data |-> mis.exp.data, size |-> mis.exp.size, aux |-> mis.exp.aux,
-              nul |-> TRUE, ret |-> r, data2 |-> <<>>, size2 |-> 0, in |-> <<>>] : r \in Codes}
+              nul |-> TRUE, ret |-> r, data2 |-> <<>>, size2 |-> 0, in |-> i] : r \in Codes, i \in InsOf}
          ELSE IF mis.exp.kind = "run" THEN
             {[k |-> "cmd", kind |-> "run", c |-> mis.exp.c, fsm |-> mis.exp.fsm, data |-> <<>>, size |-> 0, aux |-> 0,
-              ret |-> r, data2 |-> <<>>, size2 |-> 0, in |-> <<>>] : r \in Codes}
+              ret |-> r, data2 |-> <<>>, size2 |-> 0, in |-> i] : r \in Codes, i \in InsOf}
          ELSE {[k |-> "cmd", kind |-> mis.exp.kind, c |-> mis.exp.c, fsm |-> mis.exp.fsm, data |-> mis.exp.data, size |-> mis.exp.size, aux |-> mis.exp.aux,
-                ret |-> r, data2 |-> d, size2 |-> Len(d), in |-> <<>>]
-                 : r \in (IF mis.exp.fsm = "ev" THEN Codes \ {RET_HOLD} ELSE Codes), d \in EditsOf(mis.exp.data)}
+                ret |-> r, data2 |-> d, size2 |-> Len(d), in |-> i]
+                 : r \in (IF mis.exp.fsm = "ev" THEN Codes \ {RET_HOLD} ELSE Codes), d \in EditsOf(mis.exp.data), i \in InsOf}
     [] mis.what = "vr" -> {[k |-> "vr", c |-> mis.exp[1], v |-> mis.exp[2], r |-> r, in |-> <<>>] : r \in VarRets}
     [] mis.what = "vw" -> {[k |-> "vw", c |-> mis.exp[1], v |-> mis.exp[2], ws |-> mis.exp[3], r |-> r, in |-> <<>>] : r \in VarRets}
     [] mis.what = "lock" -> {[k |-> "lock", r |-> r, n |-> 0, clean |-> TRUE] : r \in (IF nfail < MaxLockFail THEN LockRets ELSE {0})}
